@@ -485,5 +485,5 @@ def strategy(tier):
 PARTS = [
     Part('network', run, strategy=strategy, examples={'quick': 2400, 'thorough': 60000},
          floors={'has-bonds': 0.3, 'irregular-selection': 0.3, 'decided-by-separation': 0.2, 'decided-by-domain': 0.1,
-                 'decided-by-upper': 0.2, 'decided-by-force': 0.03, 'tie': 0.04, 'nan': 0.02}),
+                 'decided-by-upper': 0.2, 'decided-by-force': 0.03, 'tie': 0.04, 'nan': 0.012}),
 ]
